@@ -125,13 +125,16 @@ Holds(p, S, c) ==
          IN  \A i \in 1..(Len(q) - 1) : S.s[q[i + 1]] = S.e[q[i]]
     [] c.cls \in {"UnorderedTaskGroup", "OrderedTaskGroup"} ->
          LET ts == SchedOf(S, SeqToSet(c.tasks))
-             ord == SelectSeq(c.tasks, LAMBDA t : S.sched[t])
          IN  /\ Has(c.interval) =>
                   \A t \in ts : S.s[t] >= Val(c.interval)[1] /\ S.e[t] <= Val(c.interval)[2]
              /\ (~Has(c.interval) /\ Has(c.length) /\ ts # {}) =>
                   MaxOf({ S.e[t] : t \in ts }) - MinOf({ S.s[t] : t \in ts }) <= Val(c.length)
              /\ c.cls = "OrderedTaskGroup" =>
-                  \A i \in 1..(Len(ord) - 1) : Rel(c.kind, S.e[ord[i]], S.s[ord[i + 1]])
+                  \* neighbours in the declared list, when both are scheduled (the order
+                  \* across an unscheduled member is an unspecified corner, see UnspecCon)
+                  \A i \in 1..(Len(c.tasks) - 1) :
+                     (S.sched[c.tasks[i]] /\ S.sched[c.tasks[i + 1]])
+                        => Rel(c.kind, S.e[c.tasks[i]], S.s[c.tasks[i + 1]])
     [] c.cls = "ScheduleNTasksInTimeIntervals" ->
          LET inside == { t \in SchedOf(S, SeqToSet(c.tasks)) : InSome(c.intervals, S.s[t], S.e[t]) }
          IN  CountOK(c.kind, Cardinality(inside), c.n)
@@ -219,6 +222,11 @@ UnspecCon(p, S, c) ==
          LET ts == SchedOf(S, SeqToSet(c.tasks))
          IN  IF \E a, b \in ts : a # b /\ (S.s[a] = S.s[b] \/ S.e[a] = S.e[b])
              THEN {"contiguous-coinciding-times"} ELSE {}
+    [] c.cls = "OrderedTaskGroup" ->
+         \* an unscheduled member between two scheduled ones: is the order transitive?
+         IF \E i, j, k \in 1..Len(c.tasks) : i < j /\ j < k /\ S.sched[c.tasks[i]]
+                                               /\ ~S.sched[c.tasks[j]] /\ S.sched[c.tasks[k]]
+         THEN {"ordered-group-skipped-member-in-between"} ELSE {}
     [] c.cls = "ScheduleNTasksInTimeIntervals" ->
          IF \E t \in SchedOf(S, SeqToSet(c.tasks)) : NumIn(c.intervals, S.s[t], S.e[t]) > 1
          THEN {"ntasks-in-two-intervals"} ELSE {}
